@@ -98,6 +98,19 @@ func (rt *regText) fromCall(c *ast.CallExpr) {
 		case *ast.ParenExpr:
 			top = x
 			continue
+		case *ast.KeyValueExpr:
+			if x.Value == top {
+				top = x
+				continue
+			}
+		case *ast.CompositeLit:
+			top = x // the text is an element of a literal: the literal holds it
+			continue
+		case *ast.UnaryExpr:
+			if x.Op == token.AND {
+				top = x
+				continue
+			}
 		case *ast.BinaryExpr:
 			if x.Op == token.ADD {
 				top = x
